@@ -75,6 +75,9 @@ type Verifier struct {
 	Reports []*FuncReport
 	Errors  []string // machinery errors
 	UsedEnv map[string]bool
+	UsedSummaries map[string]bool
+	Verified      map[string]bool
+	AllClauses    map[string]bool // functions verified with every clause (summary callees)
 }
 
 func obligationName(fc *FuncContract, label string) string {
@@ -117,6 +120,8 @@ func (v *Verifier) VerifyFunc(fc *FuncContract) {
 	ex.Root = fn
 	ex.TypeHolds = defaultTypeHolds
 	ex.AssumeNonNil = defaultAssumeNonNil
+	ex.SummaryHook = v.summaryHook(fc)
+	v.Verified[fc.Key] = true
 	if fc.Options["unroll"] != "" {
 		fmt.Sscanf(fc.Options["unroll"], "%d", &ex.Unroll)
 	}
@@ -178,7 +183,7 @@ func (v *Verifier) VerifyFunc(fc *FuncContract) {
 			noteSet[n] = true
 		}
 		for _, c := range fc.Clauses {
-			if c.Kind != "ensures" || !c.appliesTo(v.Prop, fc) {
+			if c.Kind != "ensures" || !(c.appliesTo(v.Prop, fc) || v.AllClauses[fc.Key]) {
 				continue
 			}
 			name := obligationName(fc, c.Label)
